@@ -165,6 +165,10 @@ func main() {
 		axisLoopReport(fset, pkgs)
 		return
 	}
+	if len(os.Args) > 2 && os.Args[2] == "prelude" {
+		preludeReport(fset, pkgs)
+		return
+	}
 	if len(os.Args) > 2 && os.Args[2] == "axis" {
 		axisReport(fset, pkgs)
 		return
